@@ -5,6 +5,6 @@ cd "$(dirname "$0")"
 export PYTHONPATH=/repo:/verif PYTHONHASHSEED=0 PYTHONDONTWRITEBYTECODE=1
 for t in tools/gen_*.py; do [ -f "$t" ] && { /venv/bin/python -W ignore "$t" || echo "translator $t failed (fail-closed); checks depending on its Gen/ output will report it"; }; done
 cd coq
-{ echo "-Q theories UPV"; echo "-arg -w -arg -notation-overridden,-deprecated-hint-without-locality,-deprecated-instance-without-locality"; find theories -name '*.v' | sort; } > _CoqProject
+{ echo "-Q theories UPV"; echo "-arg -w -arg -notation-overridden,-deprecated-hint-without-locality,-deprecated-instance-without-locality"; find theories -name '*.v' | LC_ALL=C sort; } > _CoqProject
 coq_makefile -f _CoqProject -o Makefile >/dev/null
 timeout 3000 make -j16 2>&1 | grep -v -E "^(COQC|COQDEP|CLEAN)" | tail -50
